@@ -70,7 +70,7 @@ impl<T> core::ops::Deref for Node<T> {
     fn deref(&self) -> (r: &T) ensures *r == *self.0 { &*self.0 }
 }
 pub struct Field { pub name: NameWithLoc, pub definition: Node<FieldDefinition> }
-pub struct ObjectType { pub x: u64 }
+pub struct ObjectType { pub name: Name }
 #[derive(Clone, Copy)]
 pub struct MaybeAsyncObject<'o> { pub x: &'o u64 }
 pub struct JsonMap { pub x: u64 }
@@ -83,7 +83,22 @@ impl GraphQLError {
     pub fn new(message: String, location: Option<SourceSpan>, sources: &SourceMap) -> GraphQLError { unimplemented!() }
 }
 /// real: `errors: &'a mut Vec<GraphQLError>`; held here as the Vec itself
-pub struct ExecutionContext<'a> { pub document: &'a Document, pub errors: Vec<GraphQLError> }
+pub struct ExecutionContext<'a> { pub schema: &'a Valid<Schema>, pub document: &'a Document, pub errors: Vec<GraphQLError> }
+pub struct Valid<T>(pub T);
+impl<T> core::ops::Deref for Valid<T> {
+    type Target = T;
+    fn deref(&self) -> (r: &T) ensures *r == self.0 { &self.0 }
+}
+pub struct FieldLookupError { pub x: u8 }
+pub struct Schema { pub x: u64 }
+impl Schema {
+    /// schema/mod.rs: the definition of a type's explicit field or meta-field (proved in unit schema_lookup for C18); here a partial function of the two names
+    pub uninterp spec fn spec_type_field(&self, type_name: Name, field_name: NameWithLoc) -> Option<FieldDefinition>;
+    #[verifier::external_body]
+    pub fn type_field(&self, type_name: &Name, field_name: &NameWithLoc) -> (r: Result<&FieldDefinition, FieldLookupError>)
+        ensures match r { Ok(d) => self.spec_type_field(*type_name, *field_name) == Some(*d), Err(_) => self.spec_type_field(*type_name, *field_name) is None }
+    { unimplemented!() }
+}
 #[verifier::external_body]
 pub fn fmt_opaque() -> String { unimplemented!() }
 impl Clone for ResponseDataPathSegment {
@@ -220,7 +235,7 @@ pub uninterp spec fn coerced_arguments(field_def: &FieldDefinition, field: &Fiel
 pub fn coerce_argument_values(ctx: &mut ExecutionContext<'_>, path: LinkedPath<'_>, field_def: &FieldDefinition, field: &Field) -> (r: Result<JsonMap, PropagateNull>)
     ensures r == coerced_arguments(field_def, field),
             errors_added_below(old(ctx).errors@, final(ctx).errors@, path_seq(path)),
-            final(ctx).document == old(ctx).document,
+            final(ctx).document == old(ctx).document, final(ctx).schema == old(ctx).schema,
 { unimplemented!() }
 /// the resolver's answer for a field (`__typename`, `__schema`, `__type` or `resolve_field` of the object value): opaque, no errors recorded by it
 pub uninterp spec fn resolved_field<'r>(object_type: &ObjectType, object_value: MaybeAsyncObject<'_>, fields: Seq<&Field>, arguments: &JsonMap) -> Result<MaybeAsyncResolved<'r>, FieldError>;
@@ -278,7 +293,7 @@ pub fn complete_value<'a, 'b>(ctx: &mut ExecutionContext<'a>, path: LinkedPath<'
                           resolved: MaybeAsyncResolved<'b>, fields: &[&'a Field]) -> (r: Completed)
     ensures r == completed(path_seq(path), mode, *ty, resolved, fields@),
             errors_added_below(old(ctx).errors@, final(ctx).errors@, path_seq(path)),
-            final(ctx).document == old(ctx).document,
+            final(ctx).document == old(ctx).document, final(ctx).schema == old(ctx).schema,
 { unimplemented!() }
 /// proved for the real function in unit `execution`; the clause text is imported from there
 #[verifier::external_body]
@@ -319,6 +334,7 @@ UNIT = {
                        DESUGAR_MAP_ERR, FMT,
                        ("completed_list.into()", "json_array(completed_list)", 1)],
              clauses=[("requires", "at_least_one_field", "fields@.len() > 0"),
+                      ("ensures", "context_unchanged", "final(ctx).document == old(ctx).document, final(ctx).schema == old(ctx).schema"),
                       ("ensures", "errors_lie_at_or_below_the_list", "errors_added_below(old(ctx).errors@, final(ctx).errors@, path_seq(path))"),
                       ("ensures", "a_list_for_a_non_list_type_is_a_field_error",
                        "(*ty is Named || *ty is NonNullNamed) ==> r is Err && final(ctx).errors@.len() > old(ctx).errors@.len()"),
@@ -331,6 +347,7 @@ UNIT = {
                                     ("inner_type", "match *ty { Type::List(t) | Type::NonNullList(t) => **inner_ty == *t, _ => false }"),
                                     ("position_in_the_list", "stream.rest() == items0.skip(stream.count() as int), stream.count() <= items0.len(), items0.len() < usize::MAX"),
                                     ("errors_so_far", "errors_added_below(errs0, ctx.errors@, path_seq(path))"),
+                                    ("context_unchanged", "ctx.document == old(ctx).document, ctx.schema == old(ctx).schema"),
                                     ("list_so_far", "list_outcome(*ty, **inner_ty, path_seq(path), mode, fields@, items0, stream.count() as int, completed_list@) == list_outcome(*ty, **inner_ty, path_seq(path), mode, fields@, items0, 0, Seq::<JsonValue>::empty())")],
                          ensures=[("iterator_exhausted", "stream.rest().len() == 0")],
                          decreases="stream.rest().len()")],
@@ -347,6 +364,7 @@ UNIT = {
                        (r"(?s)    let info = ResolveInfo \{.*?\n    \};\n", "", 1, "re"),
                        (r"(?s)let resolved_result = match field\.name\.as_str\(\) \{.*?\n    \};\n", "let resolved_result = resolve_field_opaque(ctx, object_type, object_value, fields, &argument_values);\n", 1, "re")],
              clauses=[("requires", "at_least_one_field", "fields@.len() > 0"),
+                      ("ensures", "context_unchanged", "final(ctx).document == old(ctx).document, final(ctx).schema == old(ctx).schema"),
                       ("ensures", "errors_lie_at_or_below_the_field", "errors_added_below(old(ctx).errors@, final(ctx).errors@, path_seq(path))"),
                       ("ensures", "non_null_positions_are_never_null", "non_null(field_def.ty) ==> r != Ok::<Option<JsonValue>, PropagateNull>(Some(JsonValue::Null))"),
                       ("ensures", "ExecuteField_with_null_propagation", "same_completed(r, field_outcome(path_seq(path), mode, object_type, object_value, field_def, fields@))"),
